@@ -1611,3 +1611,60 @@ def _():
     K1 = ufl.Constant(m, shape=(4, 3))
     K2 = ufl.Constant(m, shape=(2, 3, 1))
     return K1[3, 2] * K1[0, 1] * u * v * ds + (K2[1, 2, 0] + K1[2, 0]) * u("+") * v("-") * dS
+
+
+# ---- integrals over several ids interleaved with others (sort permutations that are not involutions) ----
+
+def _ids_form(variant):
+    m = mesh("triangle")
+    V = space(m)
+    v = TestFunction(V)
+    f, g, h = ufl.Coefficient(V), ufl.Coefficient(V), ufl.Coefficient(V)
+    if variant == "a":
+        return f * v * dx((1, 4)) + g * g * v * dx(2) + h * v * dx(3)
+    if variant == "b":
+        return f * v * dx((1, 2, 3)) + g * g * v * dx(2) + f * h * v * dx
+    if variant == "c":
+        return f * v * dx((1, 3, 5)) + g * g * v * dx((2, 4))
+    if variant == "d":
+        return f * v * ds((5, 1)) + g * g * v * ds(3) + h * v * ds((2, 7)) + f * v * dx((9, 4)) + g * v * dx(6) + h * h * v * dx((5, 1))
+    if variant == "e":
+        return f * v * dx((10, 2)) + g * g * v * dx((7, 1)) + h * v * dx(5) + f * g * v * dx((3, 8))
+    raise ValueError(variant)
+
+
+for _var in "abcde":
+    def _mk(var=_var):
+        return _ids_form(var)
+
+    reg(f"multi_ids_interleaved_{_var}", "c06 c01 c18" + (" q" if _var in "ade" else ""), itypes=("cell", "exterior_facet"))(_mk)
+
+
+# ---- one cell-wise constant factor shared by all blocks, more quadrature points than tensor entries ----
+
+def _const_factor(cell, variant):
+    m = mesh(cell)
+    V = space(m)
+    v = TestFunction(V)
+    k = ufl.Constant(m)
+    if variant == "linear":
+        return k * v * dx(degree=4)
+    if variant == "functional":
+        return k * dx(degree=2) + k * ds(degree=3)
+    if variant == "bubble":
+        B = ufl.FunctionSpace(m, basix.ufl.element("Bubble", cell, 3 if cell == "triangle" else 2))
+        return k * TestFunction(B) * dx
+    if variant == "unit":
+        return v * dx(degree=3) + v * ds(degree=2)
+    raise ValueError(variant)
+
+
+for _cell in ["interval", "triangle", "tetrahedron"]:
+    for _var in ["linear", "functional", "bubble", "unit"]:
+        if _cell == "tetrahedron" and _var == "bubble":
+            continue
+
+        def _mk(cell=_cell, var=_var):
+            return _const_factor(cell, var)
+
+        reg(f"const_factor_{_var}_{_cell}", "c01 c02 c07 c08 c17 c18" + (" q" if _cell != "tetrahedron" else ""), itypes=("cell", "exterior_facet"))(_mk)
